@@ -24,6 +24,7 @@ CONSTANTS ObsFile, OutFile, AsIsDev
 P    == INSTANCE ErgoProps WITH Dev <- {}
 AsIs == INSTANCE ErgoCmds WITH Dev <- AsIsDev
 Ops  == INSTANCE ErgoOps WITH Dev <- {}
+Cn   == INSTANCE ErgoConc WITH Dev <- {}
 
 Raw == ndJsonDeserialize(ObsFile)
 
@@ -31,7 +32,9 @@ ToSet(s) == {s[k] : k \in DOMAIN s}
 NormView(v) == [i \in DOMAIN v |-> [v[i] EXCEPT !.deps = ToSet(@), !.rdeps = ToSet(@)]]
 NormReply(r) == [r EXCEPT !.edges = ToSet(@), !.pruned = ToSet(@)]
 NormObs(r) == [r EXCEPT !.pre = NormView(@), !.post = NormView(@), !.reply = NormReply(@),
-                        !.gone = ToSet(@)]
+                        !.gone = ToSet(@),
+                        !.procs = [k \in DOMAIN @ |-> [@[k] EXCEPT !.reply = NormReply(@)]],
+                        !.after = [k \in DOMAIN @ |-> [@[k] EXCEPT !.view = NormView(@)]]]
 
 VARIABLES i, bad
 vars == <<i, bad>>
@@ -97,6 +100,9 @@ ClauseNames ==
     "C15_progress", "C15_waits", "C15_claim",
     "C16_one_value", "C16_truth",
     "C20_only_grow", "C20_confined", "C20_live_only",
+    "C01_serial", "C01_no_double", "C01_outcomes", "C01_winner_holds",
+    "C02_serial", "C02_wholelines", "C02_nowait", "C02_busy_fast", "C07_final", "C13_reader",
+    "C03_readable", "C03_only_own_missing", "C03_continues", "C04_all_or_nothing",
     "R_step", "R_reply", "R_time", "R_preview", "R_faillog" }
 
 Eval(n, o) ==
@@ -148,6 +154,20 @@ Eval(n, o) ==
     [] n = "C20_only_grow" -> P!C20_only_grow(o)
     [] n = "C20_confined" -> P!C20_confined(o)
     [] n = "C20_live_only" -> P!C20_live_only(o)
+    [] n = "C01_serial" -> Cn!C01_serial(o)
+    [] n = "C01_no_double" -> Cn!C01_no_double(o)
+    [] n = "C01_outcomes" -> Cn!C01_outcomes(o)
+    [] n = "C01_winner_holds" -> Cn!C01_winner_holds(o)
+    [] n = "C02_serial" -> Cn!C02_serial(o)
+    [] n = "C02_wholelines" -> Cn!C02_wholelines(o)
+    [] n = "C02_nowait" -> Cn!C02_nowait(o)
+    [] n = "C02_busy_fast" -> Cn!C02_busy_fast(o)
+    [] n = "C07_final" -> Cn!C07_final(o)
+    [] n = "C13_reader" -> Cn!C13_reader(o)
+    [] n = "C03_readable" -> Cn!C03_readable(o)
+    [] n = "C03_only_own_missing" -> Cn!C03_only_own_missing(o)
+    [] n = "C03_continues" -> Cn!C03_continues(o)
+    [] n = "C04_all_or_nothing" -> Cn!C04_all_or_nothing(o)
     [] n = "R_step" -> R_step(o)
     [] n = "R_reply" -> R_reply(o)
     [] n = "R_time" -> R_time(o)
@@ -155,7 +175,10 @@ Eval(n, o) ==
     [] n = "R_faillog" -> R_faillog(o)
 
 \* the clauses the harness asked for on this record (all, unless it names some)
-Wanted(r) == IF "only" \in DOMAIN r THEN ToSet(r.only) \cap ClauseNames ELSE ClauseNames
+ConcNames == {"C01_serial", "C01_no_double", "C01_outcomes", "C01_winner_holds",
+              "C02_serial", "C02_wholelines", "C02_nowait", "C02_busy_fast", "C07_final", "C13_reader",
+              "C03_readable", "C03_only_own_missing", "C03_continues", "C04_all_or_nothing"}
+Wanted(r) == IF "only" \in DOMAIN r THEN ToSet(r.only) \cap ClauseNames ELSE ClauseNames \ ConcNames
 
 Init == i = 0 /\ bad = {}
 Next == /\ i < Len(Raw)
